@@ -7,7 +7,7 @@ EXTENDS Integers, Sequences, FiniteSets, TLC, Json, IOUtils
 Names == LET s == ndJsonDeserialize(IOEnv.NAMES_FILE)[1] IN {s[i] : i \in 1..Len(s)}
 Sizes == {257, 258, 300, 2049, 65537, 1048577}
 ArgClasses == {"empty", "x", "zero", "fmt", "fmtlong", "envname", "long", "pct"}
-States == {"normal", "envempty", "envhuge", "argvlong", "argvnull", "envnull"}
+States == {"normal", "envempty", "envhuge", "argvlong", "argvnull", "envnull", "sudo253", "sudo254", "sudo255", "logname254", "logname3000"}
 VARIABLES ds, n, arg, st, done
 Init == ds \in Names /\ n \in Sizes /\ arg \in ArgClasses /\ st \in States /\ done = FALSE
 Next == ~done /\ done' = TRUE /\ UNCHANGED <<ds, n, arg, st>>
